@@ -22,13 +22,13 @@ func init() {
 }
 
 type epLoop struct {
-	name           string
-	app            ssa.Instruction
-	skip, subst    string
-	provOK, ctxOK  bool
-	boundOK        bool
-	hasIndex       bool
-	indexPos       token.Pos
+	name          string
+	app           ssa.Instruction
+	skip, subst   string
+	provOK, ctxOK bool
+	boundOK       bool
+	hasIndex      bool
+	indexPos      token.Pos
 }
 
 func runC17(c *Ctx) {
